@@ -145,12 +145,18 @@ class Client:
         self.logger = logging.getLogger(logger_name)
 
     def set_config(self, key: str, value: Any) -> None:
-        self.config[key] = value    # type:ignore
-        self.refresh_config()
+        self.set_configs(cast(ClientConfig, {key: value}))
 
     def set_configs(self, dic: ClientConfig) -> None:
+        previous_config = cast(ClientConfig, dict(self.config))
         self.config.update(dic)
-        self.refresh_config()
+        try:
+            self.refresh_config()
+        except Exception:
+            # The new configuration is refused: keep running with the previous, valid, one.
+            self.config = previous_config
+            self.configure_logger()
+            raise
 
     def refresh_config(self) -> None:
         self.configure_logger()
